@@ -31,7 +31,7 @@ type FormatRow struct {
 type InstRow struct {
 	Name     string
 	Opcode   int64
-	Format   string // FormatType constant name
+	Format   string   // FormatType constant name
 	Widths   [5]int64 // DST, SRC0, SRC1, SRC2, SDST
 	Pos      token.Pos
 	FromLoop bool
